@@ -7,6 +7,7 @@ import (
 	"github.com/verily-src/fhirpath-go/fhirpath/system"
 	"github.com/verily-src/fhirpath-go/internal/fhir"
 	"github.com/verily-src/fhirpath-go/internal/protofields"
+	"google.golang.org/protobuf/reflect/protoreflect"
 )
 
 var (
@@ -70,6 +71,12 @@ func TypeOf(input any) (TypeSpecifier, error) {
 	name := string(item.ProtoReflect().Descriptor().Name())
 	if protofields.IsCodeField(item) {
 		return TypeSpecifier{FHIR, "code"}, nil
+	}
+	if _, nested := item.ProtoReflect().Descriptor().Parent().(protoreflect.MessageDescriptor); nested {
+		// A component nested in a resource or datatype (e.g. Patient.contact) has
+		// no type name of its own; its message name (Contact, Evidence, Location...)
+		// may even collide with a resource or datatype name.
+		return TypeSpecifier{FHIR, "BackboneElement"}, nil
 	}
 	return TypeSpecifier{FHIR, primitiveToLowercase(name)}, nil
 }
